@@ -1037,3 +1037,52 @@ part_harnesses! {
 // (`.[]` - shape 1 - verified in 83 s in one run and exceeded 600 s in three others; the half-open
 // shapes `.[a:]` / `.[:b]` - shapes 3 and 4 - did not finish in 600 s although the two-bound shape
 // takes a minute.  None of them is registered as an obligation.)
+
+// (An obligation on `Compiler::call_mod_id` - last matching definition wins, CatchOne iff it
+// tail-calls itself - was built on concretely enumerated definition lists and did not finish:
+// even one definition with a one-element `BTreeSet` of tail calls exhausted CBMC in 5 minutes.
+// The wrappers `verif_push_def` / `verif_call_mod_id` it used are still appended to compile.rs.)
+
+// ------------------------------------------------------------------------------------------
+// C04: the trampoline also drops an exhausted iterator whose size hint is not exact
+// ------------------------------------------------------------------------------------------
+/// an iterator over `lo..hi` with an honest but loose size hint `(0, Some(remaining))`, like
+/// the chained / flat-mapped streams the interpreter puts on the stack
+struct Loose(u8, u8);
+impl Iterator for Loose {
+    type Item = u8;
+    fn next(&mut self) -> Option<u8> {
+        if self.0 < self.1 {
+            self.0 += 1;
+            Some(self.0 - 1)
+        } else {
+            None
+        }
+    }
+    fn size_hint(&self) -> (usize, Option<usize>) {
+        (0, Some((self.1 - self.0) as usize))
+    }
+}
+/// With loose hints: after an iterator has yielded its last element its hint is
+/// `(0, Some(0))` and it must not stay on the stack - whether it was the caller of a tail call
+/// (callback answers Continue) or not.  Shapes enumerated concretely.
+#[kani::proof]
+#[kani::unwind(7)]
+fn c04_stack_loose_hint() {
+    let mut a = 0u8;
+    while a <= 2 {
+        // plain iteration
+        let mut st = crate::Stack::new(Vec::from([Loose(0, a)]), |x: u8| -> ControlFlow<u8, Loose> { ControlFlow::Break(x) });
+        let r = st.next();
+        assert!(r == if a > 0 { Some(0) } else { None });
+        assert!(st.verif_len() == if a > 1 { 1 } else { 0 });
+        // one tail call: the callee (one element) replaces an exhausted caller
+        let mut st = crate::Stack::new(Vec::from([Loose(0, a)]), |x: u8| -> ControlFlow<u8, Loose> {
+            if x < 10 { ControlFlow::Continue(Loose(10, 11)) } else { ControlFlow::Break(x) }
+        });
+        let r = st.next();
+        assert!(r == if a > 0 { Some(10) } else { None });
+        assert!(st.verif_len() == if a > 1 { 1 } else { 0 });
+        a += 1;
+    }
+}
